@@ -236,3 +236,20 @@ def gen_tk_cfg(rng, n_tracks, thorough=False):
     return TkCfg(num_tracks=n_tracks, velocity_bins=bins, running=flags[0], fuse_track=flags[1],
                  fuse_value=flags[2], fuse_velocity=flags[3], simplify_ts=flags[4],
                  pitch_range=rng.choice([(21, 108), (0, 127), (21, 108)]))
+
+
+# ----------------------------------------------------------------------------- small-scope exhaustive enumeration
+
+SMALL_ALPHABET = [pm(WAIT, 0, 1), pm(WAIT, 0, 2), pm(ON, 0, None, note=60, vel=64), pm(OFF, 0, None, note=60),
+                  pm(ON, 0, None, note=61, vel=100), pm(OFF, 0, None, note=61), pm(ON, 1, None, note=60, vel=64),
+                  pm(OFF, 1, None, note=60), pm(TIMESIG, 0, None, num=3, den=4), pm(KEYSIG, 0, None, key=1)]
+
+
+def enum_rel(max_len, alphabet=None):
+    """every relative message list of length <= max_len over a small alphabet (well-formed or not): two rests, two
+    pitches, two channels, a time and a key signature — the exhaustive small scope of the correspondence"""
+    import itertools
+    alphabet = alphabet or SMALL_ALPHABET
+    for n in range(max_len + 1):
+        for combo in itertools.product(alphabet, repeat=n):
+            yield list(combo)
